@@ -4,7 +4,7 @@ package container
 
 // Contracts for the deductive verifier under /verif (comment-only; build tag verif).
 
-//@ pred sortedStrict(s []int) = forall k in 0..len(s)-1 :: s[k] < s[k+1]
+//@ pred sortedStrict(s []int) = forall p in 0..len(s) :: forall q in p+1..len(s) :: s[p] < s[q]
 //@ spec func mem(s []int, x int) bool = exists j in 0..len(s) :: s[j] == x
 //@ pred below(s []int, x int) = forall k in 0..len(s) :: s[k] < x
 //@ pred inplace(ret []int, reuse []int) = fresh(ret) || (samearray(ret, reuse) && cap(ret) == cap(reuse))
@@ -46,3 +46,53 @@ package container
 //@     invariant subsetOf2(ret, a, b[:e+@i])
 //@     invariant subsetOf(a, ret)
 //@     invariant subsetOf(b[:e+@i], ret)
+
+//@ func intersect
+//@   requires sortedStrict(a) && sortedStrict(b)
+//@   requires disjoint(reuse, a) && disjoint(reuse, b)
+//@   modifies reuse[0:cap(reuse)]
+//@   ensures sortedStrict(result)
+//@   ensures inplace(result, reuse)
+//@   ensures forall k in 0..len(result) :: mem(a, result[k]) && mem(b, result[k])
+//@   ensures forall k in 0..len(a) :: mem(b, a[k]) ==> mem(result, a[k])
+//@   loop 1:
+//@     invariant 0 <= e && e <= bl && bl == len(b) && 0 <= @i && @i <= len(a)
+//@     invariant inplace(ret, reuse)
+//@     invariant sortedStrict(ret)
+//@     invariant @i < len(a) ==> below(ret, a[@i])
+//@     invariant @i < len(a) ==> below(b[:e], a[@i])
+//@     invariant forall k in 0..len(ret) :: mem(a[:@i], ret[k]) && mem(b, ret[k])
+//@     invariant forall k in 0..@i :: mem(b, a[k]) ==> mem(ret, a[k])
+//@   loop 2:
+//@     invariant 0 <= e && e <= bl && bl == len(b) && 0 <= @i1 && @i1 < len(a) && v == a[@i1]
+//@     invariant inplace(ret, reuse)
+//@     invariant sortedStrict(ret)
+//@     invariant below(ret, v)
+//@     invariant below(b[:e], v)
+//@     invariant forall k in 0..len(ret) :: mem(a[:@i1], ret[k]) && mem(b, ret[k])
+//@     invariant forall k in 0..@i1 :: mem(b, a[k]) ==> mem(ret, a[k])
+
+//@ func subtract
+//@   requires sortedStrict(a) && sortedStrict(b)
+//@   requires disjoint(reuse, a) && disjoint(reuse, b)
+//@   modifies reuse[0:cap(reuse)]
+//@   ensures sortedStrict(result)
+//@   ensures inplace(result, reuse)
+//@   ensures forall k in 0..len(result) :: mem(a, result[k]) && !mem(b, result[k])
+//@   ensures forall k in 0..len(a) :: !mem(b, a[k]) ==> mem(result, a[k])
+//@   loop 1:
+//@     invariant 0 <= e && e <= bl && bl == len(b) && 0 <= @i && @i <= len(a)
+//@     invariant inplace(ret, reuse)
+//@     invariant sortedStrict(ret)
+//@     invariant @i < len(a) ==> below(ret, a[@i])
+//@     invariant @i < len(a) ==> below(b[:e], a[@i])
+//@     invariant forall k in 0..len(ret) :: mem(a[:@i], ret[k]) && !mem(b, ret[k])
+//@     invariant forall k in 0..@i :: !mem(b, a[k]) ==> mem(ret, a[k])
+//@   loop 2:
+//@     invariant 0 <= e && e <= bl && bl == len(b) && 0 <= @i1 && @i1 < len(a) && v == a[@i1]
+//@     invariant inplace(ret, reuse)
+//@     invariant sortedStrict(ret)
+//@     invariant below(ret, v)
+//@     invariant below(b[:e], v)
+//@     invariant forall k in 0..len(ret) :: mem(a[:@i1], ret[k]) && !mem(b, ret[k])
+//@     invariant forall k in 0..@i1 :: !mem(b, a[k]) ==> mem(ret, a[k])
